@@ -23,6 +23,12 @@ def tree(fn, v, opaque=(), depth=0):
         return ('phi', [tree(fn, x, opaque, depth + 1) for x, _ in d.incoming])
     if d.op == 'select':
         return ('phi', [tree(fn, d.ops[1], opaque, depth + 1), tree(fn, d.ops[2], opaque, depth + 1)])
+    if d.op == 'load':
+        # element of a constant global table with a computed index: ('tab', @global, element type, index tree)
+        g = fn.defs.get(d.ops[0])
+        if g is not None and g.op == 'getelementptr' and g.ops[0].startswith('@') and len(g.ops) == 3 and g.ops[1] == '0':
+            return ('tab', g.ops[0], d.ty, tree(fn, g.ops[2], opaque, depth + 1))
+        return ('v', v)
     if d.op == 'call' and d.callee.startswith('@'):
         g = fn.mod.functions.get(d.callee)
         if g is not None and len(g.order) == 1 and depth < 20:
@@ -39,6 +45,8 @@ def leaves(t, out=None):
         out.add(t); return out
     if t[0] == 'cast':
         return leaves(t[4], out)
+    if t[0] == 'tab':
+        return leaves(t[3], out)
     if t[0] == 'phi':
         for x in t[1]:
             leaves(x, out)
@@ -68,6 +76,14 @@ def evaluate(t, env):
         return wrap(x, w1)
     if k == 'phi':
         raise ValueError('phi')
+    if k == 'tab':
+        idx = evaluate(t[3], env)
+        tabv = env.get(('table', t[1]))
+        if tabv is None:
+            raise KeyError(t[1])
+        if not (0 <= idx < len(tabv)):
+            raise IndexError(f'{t[1]}[{idx}]')
+        return wrap(tabv[idx], width_of(t[2]))
     if k == 'call':
         sub = {('p', i): evaluate(a, env) for i, a in enumerate(t[3])}
         return evaluate(t[2], sub)
@@ -90,6 +106,8 @@ def alternatives(t):
         return [t]
     if t[0] == 'cast':
         return [('cast', t[1], t[2], t[3], a) for a in alternatives(t[4])]
+    if t[0] == 'tab':
+        return [('tab', t[1], t[2], a) for a in alternatives(t[3])]
     if t[0] == 'phi':
         out = []
         for x in t[1]:
